@@ -328,7 +328,7 @@ class History:
         ]
         kind = "returns_result_of_other_expression" if other else "wrong_value"
         self._fail(
-            kind, who=who, expr=POOL_NAMES[i], got=str(got)[:200], want=str(want)[:200],
+            kind, who=who, expr=POOL_NAMES[i], got=_safe_str(got), want=_safe_str(want),
             result_belongs_to=other,
         )
 
@@ -530,6 +530,14 @@ class History:
             return self.bad
         return ok(self.nontrivial, labels, n_ops=len(self.ops), trace=self.trace[:40],
                   files_left=total, unreadable_left=unreadable)
+
+
+def _safe_str(obj) -> str:
+    """str() of whatever came out of a cache file (a corrupt object may fail to print)."""
+    try:
+        return str(obj)[:200]
+    except Exception as exc:  # noqa: BLE001
+        return f"<{type(obj).__name__} object whose str() raises {type(exc).__name__}>"
 
 
 def _safe_eq(a, b) -> bool:
@@ -740,8 +748,8 @@ def _stress_worker(directory: str, seed: int, calls: int, start: float) -> dict:
                            "frame": innermost_frame(exc), "message": str(exc)[:200]})
             continue
         if not _safe_eq(got, st_["expected"][i]):
-            wrong.append({"call": n, "expr": POOL_NAMES[i], "got": str(got)[:200],
-                          "want": str(st_["expected"][i])[:200]})
+            wrong.append({"call": n, "expr": POOL_NAMES[i], "got": _safe_str(got),
+                          "want": _safe_str(st_["expected"][i])})
     return {"calls": calls, "raised": raised[:5], "wrong": wrong[:5],
             "misses": _DUMPS.get(ident, 0) - before}
 
